@@ -275,6 +275,8 @@ class Circuit:
                 g.control = [mapping[ind] for ind in g.control]
 
         self._qubit_indices = set(range(len(qubits_in_use)))
+        if self._qubits_simulated:
+            self._qubits_simulated = len(qubits_in_use)
         return self
 
     def reindex_qubits(self, new_indices):
@@ -294,6 +296,8 @@ class Circuit:
                 g.control = [mapping[ind] for ind in g.control]
 
         self._qubit_indices = set(new_indices)
+        if self._qubits_simulated:
+            self._qubits_simulated = max(new_indices) + 1
 
     def get_entangled_indices(self):
         """Return a list of unentangled sets of qubit indices. Each set includes indices
